@@ -78,7 +78,8 @@ def main():
                 # keep cross-property catches recorded by an earlier --all run
                 for p, ls in old["caught_by"].items():
                     if p != res["property"] and p not in res["caught_by"]:
-                        pass
+                        res["caught_by"][p] = ls  # kept from an earlier --all run
+                res["caught"] = bool(res["caught_by"])
             results[sid] = res
             flag = "CAUGHT " if res.get("caught") else ("missed " if res.get("claimed") else "n/a    ")
             if not res.get("applies"):
